@@ -169,6 +169,35 @@ func (g *Gen) Ring(dx, dy int64, radius float64, k int, clockwise bool) (points 
 }
 
 // World generates a set of features that is valid by construction.
+// ExplicitArea draws an area that has no paths at all: 1..2 polygons of explicit
+// loops, the first possibly with a hole.
+func (g *Gen) ExplicitArea() *Spec {
+	r := g.R
+	ans := b6.NamespaceOSMWay
+	if g.O.SpreadTypes {
+		ans = g.ns(ans)
+	}
+	area := &Spec{ID: g.NewID(b6.FeatureTypeArea, ans), Tags: g.RandomTags(0.9)}
+	dx, dy := int64(r.Intn(160000))-80000, int64(r.Intn(160000))-80000
+	loop := func(cx, cy int64, radius float64, k int) []s2.LatLng {
+		var l []s2.LatLng
+		for j := 0; j < k; j++ {
+			a := 2 * math.Pi * float64(j) / float64(k)
+			l = append(l, g.Place(cx+int64(radius*math.Sin(a)), cy+int64(radius*math.Cos(a))))
+		}
+		return l
+	}
+	first := Poly{Loops: [][]s2.LatLng{loop(dx, dy, 3000, r.Range(3, 7))}}
+	if g.O.Holes && r.Chance(0.4) {
+		first.Loops = append(first.Loops, loop(dx, dy, 700, r.Range(3, 5)))
+	}
+	area.Polys = []Poly{first}
+	if r.Chance(0.4) {
+		area.Polys = append(area.Polys, Poly{Loops: [][]s2.LatLng{loop(dx+15000, dy-9000, 2000, r.Range(3, 6))}})
+	}
+	return area
+}
+
 func (g *Gen) World() []*Spec {
 	r := g.R
 	var out []*Spec
@@ -274,29 +303,7 @@ func (g *Gen) World() []*Spec {
 		out = append(out, area)
 	}
 	if g.O.LatLngOnlyAreaP > 0 && r.Chance(g.O.LatLngOnlyAreaP) {
-		// an area that has no paths at all: 1..2 polygons of explicit loops, the first possibly with a hole
-		ans := b6.NamespaceOSMWay
-		if g.O.SpreadTypes {
-			ans = g.ns(ans)
-		}
-		area := &Spec{ID: g.NewID(b6.FeatureTypeArea, ans), Tags: g.RandomTags(0.9)}
-		dx, dy := int64(r.Intn(160000))-80000, int64(r.Intn(160000))-80000
-		loop := func(cx, cy int64, radius float64, k int) []s2.LatLng {
-			var l []s2.LatLng
-			for j := 0; j < k; j++ {
-				a := 2 * math.Pi * float64(j) / float64(k)
-				l = append(l, g.Place(cx+int64(radius*math.Sin(a)), cy+int64(radius*math.Cos(a))))
-			}
-			return l
-		}
-		first := Poly{Loops: [][]s2.LatLng{loop(dx, dy, 3000, r.Range(3, 7))}}
-		if g.O.Holes && r.Chance(0.4) {
-			first.Loops = append(first.Loops, loop(dx, dy, 700, r.Range(3, 5)))
-		}
-		area.Polys = []Poly{first}
-		if r.Chance(0.4) {
-			area.Polys = append(area.Polys, Poly{Loops: [][]s2.LatLng{loop(dx+15000, dy-9000, 2000, r.Range(3, 6))}})
-		}
+		area := g.ExplicitArea()
 		areas = append(areas, area)
 		out = append(out, area)
 	}
